@@ -28,7 +28,7 @@ ASSUMPTIONS = ['a property key spelled like a body keyword (note, indexes) is th
                'duplicate keys are not generated (last-wins is not claimed)',
                'round trip of multi-line values is C02/C13 territory (recorded finding C02-multiline-settings-text); here they are checked for exact storage only']
 
-KEYS = ['k', 'my key', 'K2', 'ref_x', 'table']
+KEYS = ['k', 'my key', 'K2', 'ref_x', 'table', 'pkey', 'nullable', 'notes', 'indexes_x', 'unique_id']
 VALUES = ['v', "it's", 'a "b"', ' padded ', '', 'multi\nline', 'x: y, [z]']
 ORDINARY = [('pk', None), ('not_null', None), ('default', ['int', 1]), ('note', 'cn'), ('ref', None), ('unique', None)]
 
